@@ -142,3 +142,63 @@ func Runes(es []Entry) []rune {
 	sort.Slice(out, func(i, j int) bool { return out[i] < out[j] })
 	return out
 }
+
+// CategoryRunes returns one non-ASCII representative of every Unicode general category known to the unicode package
+// (Lu, Ll, Lt, Lm, Lo, Mn, Mc, Me, Nd, Nl, No, Pc, Pd, Ps, Pe, Pi, Pf, Po, Sm, Sc, Sk, So, Zs, Zl, Zp, Cf, Co, ...),
+// every non-ASCII White_Space rune, and one rune outside the basic multilingual plane: the equivalence classes of the
+// predicates (unicode.IsLetter, IsDigit, IsSpace, In(...)) a lexer or text formatter can branch on.
+func CategoryRunes() []rune {
+	seen := map[rune]bool{}
+	var out []rune
+	add := func(r rune) {
+		if !seen[r] && r != utf8.RuneError && utf8.ValidRune(r) {
+			seen[r] = true
+			out = append(out, r)
+		}
+	}
+	var names []string
+	for n := range unicode.Categories {
+		if len(n) == 2 {
+			names = append(names, n)
+		}
+	}
+	sort.Strings(names)
+	for _, n := range names {
+		if n == "Cs" { // surrogates are not valid in UTF-8
+			continue
+		}
+		t := unicode.Categories[n]
+		found := false
+		for _, r16 := range t.R16 {
+			for r := rune(r16.Lo); r <= rune(r16.Hi); r += rune(r16.Stride) {
+				if r >= 0x80 {
+					add(r)
+					found = true
+					break
+				}
+			}
+			if found {
+				break
+			}
+		}
+		if !found {
+			for _, r32 := range t.R32 {
+				add(rune(r32.Lo))
+				break
+			}
+		}
+	}
+	for _, r16 := range unicode.White_Space.R16 {
+		for r := rune(r16.Lo); r <= rune(r16.Hi); r += rune(r16.Stride) {
+			if r >= 0x80 {
+				add(r)
+			}
+		}
+	}
+	add(0x1F600) // astral symbol
+	add(0x20000) // astral letter
+	add(0xFE0F)  // variation selector
+	add(0x0301)  // combining acute accent
+	sort.Slice(out, func(i, j int) bool { return out[i] < out[j] })
+	return out
+}
